@@ -2,6 +2,8 @@
 
 package scte35
 
+import "github.com/Eyevinn/mp4ff/mp4"
+
 // C13 — SCTE-35 events follow the per-minute schedule, each announced exactly once.
 //
 // Per-segment biconditional against the documented schedule: for an arbitrary segment
@@ -26,12 +28,23 @@ func vH_C13_ts12800() { vC13(12800) }
 func vH_C13_ts30000() { vC13(30000) }
 func vH_C13_ts90000() { vC13(90000) }
 
+// ---- the splice_info_section: payload builder (external library + CRC) stubbed, its parameters recorded ----
+
+var vLastParams SpliceInsertParams
+
+func vStubCreateSpliceInsertPayload(p SpliceInsertParams) []byte {
+	vLastParams = p
+	return nil
+}
+
+func vStubParamsOf(e *mp4.EmsgBox) (SpliceInsertParams, bool) { return vLastParams, true }
+
 var vC13Offsets = [4][]uint64{nil, {10}, {10, 40}, {10, 36, 46}}
 
 func vC13(ts uint64) {
 	perMinute := vInt("perMinute", 1, 3)
 	// any position up to 2^48 ticks; duration in (0, 10 s]
-	segStart := vUint64("segStart", 0, 1<<48)
+	segStart := vUint64("segStart", 0, 1<<44)
 	dur := vUint64("dur", 1, 10*ts)
 	segEnd := segStart + dur
 
@@ -70,6 +83,16 @@ func vC13(ts uint64) {
 			}
 			vAssert("C13.event-duration", uint64(emsg.EventDuration) == adDur)
 			vAssert("C13.scheme", emsg.SchemeIDURI == SchemeIDURI)
+			// the embedded splice_info_section is consistent with the emsg: PTS = presentation time in 90 kHz
+			// modulo 2^33, break duration = event duration in 90 kHz, same event id, out-of-network + auto return
+			sp, ok := vParamsOf(emsg)
+			vAssert("C13.section-parses", ok)
+			if ok {
+				vAssert("C13.section.pts", sp.PtsTime == (emsg.PresentationTime*90000/uint64(emsg.TimeScale))%(1<<33))
+				vAssert("C13.section.duration", sp.Duration == uint64(emsg.EventDuration)*90000/uint64(emsg.TimeScale))
+				vAssert("C13.section.event-id", sp.SpliceEventID == emsg.ID)
+				vAssert("C13.section.out-and-return", sp.OutOfNetworkIndicator && sp.AutoReturn)
+			}
 		}
 	} else {
 		vAssert("C13.no-spurious-event", emsg == nil)
